@@ -24,7 +24,7 @@ MIN_NONTRIVIAL = {"quick": 200, "thorough": 2000}
 REQUIRED_FUNCTIONS = ["listener.py:BlackbirdListener.exitInclude", "listener.py:BlackbirdListener.exitStatement", "__init__.py:load"]
 FUNCTIONS = REQUIRED_FUNCTIONS + ["program.py:BlackbirdProgram.__call__"]
 REQUIRED_TAGS = ["nested>=2", "repeat-call", "template-call", "cwd:main-dir", "cwd:parent", "cwd:root", "cwd:unrelated", "path:relative",
-                 "path:absolute", "include:subdir", "include:repeated-line", "include:abs+rel", "neg:arity", "neg:keywords", "include:symlink-dotdot", "call-in-loop", "template-call-in-loop"]
+                 "path:absolute", "include:subdir", "include:repeated-line", "include:abs+rel", "neg:arity", "neg:keywords", "include:symlink-dotdot", "call-in-loop", "template-call-in-loop", "include:gate-named-like-another-subroutine", "equal-but-different-values"]
 ASSUMPTIONS = ["reference inlining rule: DESIGN Appendix A rule 11 (sorted(sub.modes) -> call modes, parameters bound from keywords)",
                "files are ASCII; sub-programs contain no measured registers (the statement renames modes only)"]
 
@@ -52,6 +52,8 @@ def make_sub(rng, g, name, modeset, template, child=None):
     if template and not G.params:
         stmts.append("Tgate({%s}) | %d" % (G.ident(), ms[0]))
         G.params.append(stmts[-1].split("{")[1].split("}")[0])
+    if template and rng.random() < 0.5:
+        stmts.append("Bare({%s}, k={%s}) | %d" % (G.params[0], G.params[-1], ms[0]))
     if template and rng.random() < 0.4:
         # two parameters inside one argument
         pa = G.params[0]
@@ -129,6 +131,17 @@ def build(rng, g, symbolic_args=False):
             tags.add("nested>=2")
         if os.path.dirname(os.path.relpath(path, main_dir or ".")) not in ("", "."):
             tags.add("include:subdir")
+    if len(subs) >= 2 and rng.random() < 0.35:
+        # the file of the last subroutine applies, as an ordinary gate, an operation named like an earlier subroutine
+        # (it does not include that subroutine, so for it the name is just a gate)
+        (n0, p0_, nm0, par0, d0) = subs[0]
+        (n1, p1_, nm1, par1, d1) = subs[-1]
+        t1 = files[p1_].rstrip("\n").split("\n")
+        ref1 = refsem.run(files[p1_], g, fs=lambda p: files.get(os.path.normpath(p)), filename=p1_, check=False)
+        m_ = sorted(ref1.modes)[0]
+        t1.append("%s%s | %d" % (n0, rng.choice(["", "(0.5)", "(k=1)"]), m_))
+        files[p1_] = "\n".join(t1) + "\n"
+        tags.add("include:gate-named-like-another-subroutine")
     # main script
     G = gen.Gen(rng, g, params=0.0, regrefs=0.0, loops=0.2, layout=0.1, funcs=False)
     lines = ["name " + fresh("Main"), "version 1.0"]
@@ -161,6 +174,10 @@ def build(rng, g, symbolic_args=False):
             if params:
                 tags.add("template-call")
                 vals_ = ["0.5", "2", "1.25", "3/4", "-0.7", "2*0.3", "pi/4"]
+                if rng.random() < 0.3:
+                    # values that compare equal although they differ in kind or in the sign of zero
+                    vals_ = rng.choice([["1", "1.0"], ["0.0", "-0.0"], ["2", "2.0"], ["0", "-0.0", "0.0"]])
+                    tags.add("equal-but-different-values")
                 if symbolic_args and rng.random() < 0.6:
                     # the caller's own parameters, named like the callee's (possibly crossed over)
                     vals_ = ["{%s}" % q for q in params] + ["{zz}", "0.5"]
